@@ -73,25 +73,44 @@ func (h *Header) HeaderLength() uint16 {
 
 // Unpack reads a packet header from the given buffer.
 func (h *Header) Unpack(buf []byte) error {
+	_, err := h.UnpackHeader(buf)
+	return err
+}
+
+// UnpackHeader reads a packet header from the given buffer and returns the
+// number of bytes the header occupies in the buffer.
+//
+// The 3-octet Length format may be used for a packet of any length ("Messages
+// with lengths smaller than 256 octets may use the shorter 1-octet format"),
+// hence the header size in the buffer must not be derived from the length value.
+//
+// See MQTT-SN specification v. 1.2, chapter 5.2.1 Length.
+func (h *Header) UnpackHeader(buf []byte) (int, error) {
 	if len(buf) < 2 {
-		return fmt.Errorf("bad packet length: expected >=2, got %d", len(buf))
+		return 0, fmt.Errorf("bad packet length: expected >=2, got %d", len(buf))
 	}
 
 	lengthByte := buf[0]
 	if lengthByte == longPacketFlag {
-		// Long packet (>255B)
+		// 3-octet Length format
 		if len(buf) < longHeaderLength {
-			return fmt.Errorf("bad packet length: expected >=%d, got %d", longHeaderLength, len(buf))
+			return 0, fmt.Errorf("bad packet length: expected >=%d, got %d", longHeaderLength, len(buf))
 		}
-		h.pktLength = binary.BigEndian.Uint16(buf[1:3])
+		pktLength := binary.BigEndian.Uint16(buf[1:3])
+		if pktLength < longHeaderLength {
+			return 0, fmt.Errorf("bad packet length field: expected >=%d, got %d", longHeaderLength, pktLength)
+		}
+		// Keep the Header canonical (1-octet format for <=255B long packets) so
+		// HeaderLength and VarPartLength stay consistent with PackToBuffer.
+		h.SetVarPartLength(pktLength - longHeaderLength)
 		h.pktType = PacketType(buf[3])
-	} else {
-		// Short packet (<=255B)
-		h.pktLength = uint16(lengthByte)
-		h.pktType = PacketType(buf[1])
+		return longHeaderLength, nil
 	}
 
-	return nil
+	// 1-octet Length format
+	h.pktLength = uint16(lengthByte)
+	h.pktType = PacketType(buf[1])
+	return shortHeaderLength, nil
 }
 
 // NOTE: We ignore bytes.Buffer.Write*() errors because they are always nil, see
